@@ -199,7 +199,7 @@ impl Property for C07 {
         }
         let (cs, ce) = (s.min(text.len()), e.min(text.len()));
         // "covers the selected code": every selected part of a code token (comments and the shebang line are not code)
-        let uncovered = a.toks.iter().filter(|t| t.len > 0 && !t.text.starts_with("#!")).find_map(|t| {
+        let uncovered = a.toks.iter().filter(|t| t.len > 0 && !(t.off == 0 && t.text.starts_with('#'))).find_map(|t| {
             let (x, y) = (t.off.max(cs), (t.off + t.len).min(ce));
             if x < y && (x < rs || y > re) { Some(if x < rs { x } else { re.max(x) }) } else { None }
         });
